@@ -9,7 +9,8 @@ from harness import core
 from harness.core import Outcome
 
 ID = "C13"
-LEAN_TARGETS = ["BeyondVerif.Props.C13", "BeyondVerif.Witness.C13"]
+LEAN_TARGETS = ["BeyondVerif.Props.C13", "BeyondVerif.Props.C13Parts", "BeyondVerif.Props.C13Opm", "BeyondVerif.Props.C13Omm",
+                "BeyondVerif.Props.C13Groups", "BeyondVerif.Witness.C13"]
 THEOREMS = [
     "BeyondVerif.C13.recurseKids_group",
     "BeyondVerif.C13.iterGroup_promote",
@@ -19,40 +20,59 @@ THEOREMS = [
     "BeyondVerif.C13.oemCovRows_match_writers",
     "BeyondVerif.C13.frames_roundtrip",
     "BeyondVerif.C13.cov_frame_alias_roundtrip",
-    "BeyondVerif.C13.man_frame_alias_roundtrip_partial",
+    "BeyondVerif.C13.man_frame_alias_roundtrip",
     "BeyondVerif.C13.written_units_known",
     "BeyondVerif.C13.man_xml_roundtrip",
     "BeyondVerif.C13.mans_xml_roundtrip",
     "BeyondVerif.C13.manFrameBack_ok",
-    "BeyondVerif.C13W.oem_xml_one_point_fails",
+    "BeyondVerif.C13.recurseKids_group0",
+    "BeyondVerif.C13.ud_xml_roundtrip",
+    "BeyondVerif.C13.sv_xml_roundtrip",
+    "BeyondVerif.C13.cov_xml_roundtrip",
+    "BeyondVerif.C13.covFrameBack_ok",
+    "BeyondVerif.C13.opm_data_kids",
+    "BeyondVerif.C13.read_group_dicts",
+    "BeyondVerif.C13.opm_xml_load_dump_id",
+    "BeyondVerif.C13.opmEx_wf",
+    "BeyondVerif.C13.covFromXml_of_lookup",
+    "BeyondVerif.C13.xmlUd_of_lookup",
+    "BeyondVerif.C13.omm_xml_load_dump_id",
+    "BeyondVerif.C13.points_xml_roundtrip",
+    "BeyondVerif.C13.oem_covs_xml_group",
+    "BeyondVerif.C13.obs_xml_roundtrip",
+    "BeyondVerif.C13.observations_xml_roundtrip",
+    "BeyondVerif.C13W.oem_xml_one_point_ok",
     "BeyondVerif.C13W.oem_kvn_one_point_ok",
     "BeyondVerif.C13W.oem_xml_two_points_ok",
-    "BeyondVerif.C13W.oem_xml_one_cov_fails",
+    "BeyondVerif.C13W.oem_xml_one_cov_ok",
     "BeyondVerif.C13W.oem_kvn_one_cov_ok",
-    "BeyondVerif.C13W.opm_qsw_man_reloads_rsw",
+    "BeyondVerif.C13W.opm_qsw_man_ok",
     "BeyondVerif.C13W.opm_tnw_man_ok",
-    "BeyondVerif.C13W.opm_xml_one_user_defined_fails",
-    "BeyondVerif.C13W.opm_xml_empty_user_defined_fails",
-    "BeyondVerif.C13W.omm_xml_one_user_defined_fails",
-    "BeyondVerif.C13W.omm_loaded_cannot_be_dumped_kvn",
-    "BeyondVerif.C13W.tdm_xml_one_obs_fails",
-    "BeyondVerif.C13W.tdm_doppler_not_read",
-    "BeyondVerif.C13W.tdm_elevation_without_azimuth_fails",
+    "BeyondVerif.C13W.opm_one_user_defined_ok",
+    "BeyondVerif.C13W.opm_empty_user_defined_ok",
+    "BeyondVerif.C13W.omm_xml_one_user_defined_ok",
+    "BeyondVerif.C13W.omm_loaded_can_be_dumped_again",
+    "BeyondVerif.C13W.tdm_one_obs_ok",
+    "BeyondVerif.C13W.tdm_doppler_ok",
+    "BeyondVerif.C13W.tdm_elevation_without_azimuth_ok",
     "BeyondVerif.C13W.tdm_two_paths_reload_as_list",
 ]
 LEVEL_TEXT = ("Lean theorems over a structural model of beyond/io/ccsds (element trees, tokenised KVN lines, xml2dict / kvn2dict, the eight "
-              "readers/writers): for EVERY list length the dict builder turns a run of same-tag siblings into the value (one) or the list (two or more) "
-              "and the readers' iteration gets exactly the written values back iff the reader wraps a lone value or the run is not of length one "
-              "(xml_group_roundtrip, by induction); maneuver blocks of an OPM come back for every number of maneuvers, every field value "
-              "(mans_xml_roundtrip), the frame tag exactly when the alias tables invert each other (own frame, TNW: yes; QSW: kernel-checked no). "
-              "Tables regenerated from the source on every run and checked by `decide`: the 6x6 covariance key matrix is symmetric and equals the "
-              "writers' keys, the OEM row keys, the ten frames' CENTER_NAME/REF_FRAME map back, covariance frame aliases invert, written units are "
-              "known. Exact differential correspondence (message tokens at written precision, error kinds) of the compiled model with the real "
-              "dumps/loads for all four message types x both encodings x re-dump.")
-LEVEL_NOTE = ("message-level `load (dump m) = m` for arbitrary messages is proved only for the maneuver group (XML) and the group mechanism; for whole "
-              "messages it is kernel-checked on concrete instances (Witness/C13.lean) and compared exactly with the implementation on generated ones; "
-              "11 clauses are false of the current code (known findings with proposed patches); float formatting/parsing, lxml and KVN tokenisation "
-              "are parameters of the model; Lean kernel + propext/Classical.choice/Quot.sound")
+              "readers/writers): load_dump_id for WHOLE messages in XML for two message types — every well-formed OPM (ten frames, covariance "
+              "absent/own/QSW/TNW, any number of maneuvers of either kind in own/QSW/TNW with or without comment, any number of user-defined "
+              "fields, Keplerian block or not: opm_xml_load_dump_id) and every well-formed OMM (omm_xml_load_dump_id) is read back from what "
+              "the XML writer produced; for every list length the dict builder turns a run of same-tag siblings into the value (one) or the "
+              "list (two or more) and the readers' iteration returns exactly the written values (xml_group_roundtrip, by induction), "
+              "instantiated for every XML group: maneuvers, user-defined parameters, OEM state vectors and covariance blocks, TDM observations "
+              "of all four classes (any n >= 1). Tables regenerated from the source on every run and checked by `decide`: covariance key matrix "
+              "symmetric and equal to the writers' keys, OEM row keys, the ten frames, covariance and maneuver frame aliases invert (QSW, TNW), "
+              "written units known, which groups each reader wraps. Exact differential correspondence (message tokens at written precision, "
+              "error kinds) of the compiled model with the real dumps/loads for all four message types x both encodings x re-dump.")
+LEVEL_NOTE = ("whole-message load_dump_id is proved for OPM and OMM in XML; for OEM and TDM in XML only the groups (points, covariance blocks, "
+              "observations) are general theorems (covariance-to-point attachment, participants/path numbering and segment splitting are not), "
+              "and the four KVN encodings are covered by kernel-checked instances (Witness/C13.lean) and the exact correspondence only; one clause "
+              "is false of the current code (open finding: a multi-path TDM reloads as a list that dumps refuses); float formatting/parsing, lxml "
+              "and KVN tokenisation are parameters of the model; Lean kernel + propext/Classical.choice/Quot.sound")
 TECHNIQUE = ("Lean 4 proof by induction over sibling lists + kernel `decide` on tables regenerated from the Python AST and on concrete messages; "
              "exact model/implementation correspondence through the line-protocol driver")
 TRUSTED = [
@@ -70,14 +90,15 @@ ASSUMPTIONS = [
     "KVN user-defined keys are modelled as a sub-dict instead of a key prefix; `key.startswith('MAN_')` is modelled on the seven MAN_ keys the writers produce",
 ]
 NOT_COVERED = [
-    "general message-level round trip `load (dump m) = m` for whole OPM/OMM/OEM/TDM messages in Lean (only the group mechanism, the maneuver group in XML and the key/alias/frame tables are general theorems; whole messages are decide'd instances + exact correspondence)",
+    "whole-message round trip as a Lean theorem for OEM and TDM in XML (groups proved, assembly not) and for all four types in KVN (decide'd instances + exact correspondence only); kvn_xml_agree and redump_total as universally quantified theorems",
     "interplanetary centres (CENTER_NAME other than EARTH), OMM ephemeris type / classification (XML writes constants 0 / U), continuous maneuvers shorter than 0.5 ms (reload as impulsive), acceleration columns of foreign OEMs",
     "string-level corner cases: texts containing '=', '[', 'COMMENT', leading/trailing blanks or that are empty/whitespace-only",
-    "clauses false of the current code: see known_findings.d/C13.json (11 open findings, 5 proposed patches)",
+    "clause false of the current code: a MeasureSet with several paths reloads as a list of sets that dumps() refuses (open finding C13-tdm-multi-path-reloads-as-list, proposed_fixes/C13-tdm-list-of-sets.diff not applied)",
 ]
 OPEN = [
-    "load_dump_id / kvn_xml_agree / redump_total as universally quantified theorems over whole messages, for each type and encoding (proved: xml_group_roundtrip for every list length, mans_xml_roundtrip; the analogous state-vector / covariance / observation / user-defined groups and the KVN state machines are covered by decide'd instances and the correspondence only)",
-    "man_frame_alias_roundtrip for QSW (false of the current code: opm_qsw_man_reloads_rsw; becomes provable by `decide` once the readers map RSW back, proposed_fixes/C13-maneuver-frame-rsw.diff)",
+    "oem_xml_load_dump_id: assembling points_xml_roundtrip + oem_covs_xml_group with the attachment of each covariance to the point of the same epoch (distinct epochs) and the segment group",
+    "tdm_xml_load_dump_id: assembling observations_xml_roundtrip with collect_metadata (participant numbering, PATH) and the split by path",
+    "load_dump_id for the KVN encodings (kvn2dict maneuver grouping and the OEM / TDM line state machines), kvn_xml_agree, redump_total as ∀-theorems",
 ]
 RULE = ("correspondence: objects generated from one PRNG (OPM: 10 frames x 6 scales, StateVector or Orbit, name/id as attributes or keyword arguments, kep on/off, covariance absent/own/QSW/TNW, "
         "0-3 maneuvers impulsive/continuous in None/QSW/TNW with/without comment, user-defined fields absent/empty/1/2-4; OMM: via Tle or direct, covariance, user-defined; "
@@ -939,6 +960,15 @@ def read_tables():
     t["ommKvnNeedsTle"] = "tle.tle." in ast.get_source_segment(open(os.path.join(CCSDS_DIR, "omm.py")).read(), _func(omm, "_dumps_kvn"))
     t["tdmDumpsAcceptsList"] = "Measure" in ast.get_source_segment(open(os.path.join(CCSDS_DIR, "tdm.py")).read(), _func(tdm, "dumps")) and \
         "MeasureSet" in ast.get_source_segment(open(os.path.join(CCSDS_DIR, "commons.py")).read(), _func(commons, "detect2dump"))
+    # do the XML writers skip an empty user-defined dict (`if data._data.get(...)`) or write an empty element (`if ... in data._data`)
+    skips = []
+    for mod in (opm, omm):
+        for n in ast.walk(_func(mod, "_dumps_xml")):
+            if isinstance(n, ast.If) and "userDefinedParameters" in ast.dump(n) and "ccsds_user_defined" in ast.dump(n.test):
+                skips.append(not (isinstance(n.test, ast.Compare) and isinstance(n.test.ops[0], ast.In)))
+    if len(skips) != 2 or skips[0] != skips[1]:
+        raise RuntimeError(f"user-defined block of the OPM / OMM XML writers differs: {skips}")
+    t["xmlUdSkipsEmpty"] = skips[0]
     # which XML groups the readers wrap into a list
     w = {"opm": _wrapped_keys(_func(opm, "_loads_xml")), "omm": _wrapped_keys(_func(omm, "_loads_xml")),
          "oem": _wrapped_keys(_func(oem, "_loads_xml")), "tdm": _wrapped_keys(_func(tdm, "_loads_xml"))}
@@ -978,6 +1008,7 @@ def extract(ctx):
     L.append(f"def tdmAngleTrig : List String := {lstr(t['tdmAngleTrig'])}")
     L.append(f"def tdmRangeTrig : List String := {lstr(t['tdmRangeTrig'])}")
     L.append(f"def ommKvnNeedsTle : Bool := {'true' if t['ommKvnNeedsTle'] else 'false'}")
+    L.append(f"def xmlUdSkipsEmpty : Bool := {'true' if t['xmlUdSkipsEmpty'] else 'false'}")
     L.append(f"def tdmDumpsAcceptsList : Bool := {'true' if t['tdmDumpsAcceptsList'] else 'false'}")
     for k, v in t["wrap"].items():
         L.append(f"def {k} : Bool := {'true' if v else 'false'}")
